@@ -45,7 +45,8 @@ Close(s) == /\ closed = "" /\ unsynced[Other(s)] = 0
 
 (* ---- proxy ---- *)
 Relay(s) == /\ dlv[s] < sent[s]
-            /\ \E k \in (Sizes \cup {sent[s] - dlv[s]}) : k <= sent[s] - dlv[s] /\ dlv' = [dlv EXCEPT ![s] = @ + k]
+            \* the proxy forwards what it has read: everything pending, or everything but the last byte (granularity of the model)
+            /\ \E k \in {sent[s] - dlv[s], sent[s] - dlv[s] - 1} : k > 0 /\ dlv' = [dlv EXCEPT ![s] = @ + k]
             /\ UNCHANGED <<sent, unsynced, closed, eof, hist>>
 CloseOther == /\ closed # "" /\ ~eof
               /\ "CloseNoFlush" \in Defects \/ dlv[closed] = sent[closed]
